@@ -22,7 +22,7 @@ pub struct Rewriter {
     pub log: Vec<RewriteLog>,
     pub dropped: Vec<String>,
     pub errors: Vec<String>,
-    counter: usize,
+    counters: std::collections::BTreeMap<String, usize>,
 }
 
 fn txt<T: ToTokens>(t: &T) -> String {
@@ -117,14 +117,15 @@ fn bind_elem(p: &Pat, place: &Expr, idx: &Ident, mode: &str, used_refpat: &mut b
 
 impl Rewriter {
     pub fn new(enabled: HashSet<String>) -> Self {
-        Rewriter { enabled, log: vec![], dropped: vec![], errors: vec![], counter: 0 }
+        Rewriter { enabled, log: vec![], dropped: vec![], errors: vec![], counters: Default::default() }
     }
     fn on(&self, r: &str) -> bool {
         self.enabled.contains(r)
     }
     fn fresh(&mut self, base: &str) -> Ident {
-        self.counter += 1;
-        Ident::new(&format!("__vx_{}{}", base, self.counter), proc_macro2::Span::call_site())
+        let c = self.counters.entry(base.to_string()).or_insert(0);
+        *c += 1;
+        Ident::new(&format!("__vx_{}{}", base, *c), proc_macro2::Span::call_site())
     }
     fn record<A: ToTokens, B: ToTokens>(&mut self, rule: &str, line: usize, before: &A, after: &B) {
         self.log.push(RewriteLog { rule: rule.to_string(), line, before: txt(before), after: txt(after) });
@@ -162,13 +163,15 @@ impl Rewriter {
     /// bound inside the loop for the by-reference kinds.  Returns (prelude statements, loop expr).
     fn build_loop(&mut self, kind: &str, base: &Expr, pat: &Pat, body: Vec<Stmt>, line: usize) -> (Vec<Stmt>, Expr) {
         match kind {
-            "range" => {
+            "range" | "into_iter" => {
                 let p = pat_inner(pat);
-                (vec![], parse_quote!( for #p in #base { #(#body)* } ))
-            }
-            "into_iter" => {
-                let p = pat_inner(pat);
-                (vec![], parse_quote!( for #p in #base { #(#body)* } ))
+                if let Pat::Wild(_) = p {
+                    // `_` gets a name so that loop invariants can mention the position (never used by the body)
+                    let i = self.fresh("i");
+                    (vec![], parse_quote!( for #i in #base { #(#body)* } ))
+                } else {
+                    (vec![], parse_quote!( for #p in #base { #(#body)* } ))
+                }
             }
             _ => {
                 let idx = self.fresh("k");
@@ -226,11 +229,27 @@ impl Rewriter {
         let body: Vec<Stmt> = fl.body.stmts.clone();
         if mc.method == "enumerate" && mc.args.is_empty() && self.on("R-enum") {
             let (kind, base) = self.iter_source(&mc.receiver)?;
-            if kind != "iter" && kind != "iter_mut" {
-                return None;
-            }
             let Pat::Tuple(pt) = pat_inner(&fl.pat) else { return None };
             if pt.elems.len() != 2 {
+                return None;
+            }
+            if kind == "into_iter" {
+                // consuming enumerate: a counter next to the by-value loop (definition of `enumerate`);
+                // refused if the body could skip the increment
+                let Pat::Ident(pi) = pat_inner(&pt.elems[0]) else { return None };
+                if pi.by_ref.is_some() || pi.subpat.is_some() {
+                    return None;
+                }
+                let body_txt = txt(&fl.body);
+                if body_txt.contains("continue") {
+                    return None;
+                }
+                let idx = pi.ident.clone();
+                let xp = pat_inner(&pt.elems[1]);
+                let lp: Expr = parse_quote!({ let mut #idx: usize = 0; for #xp in #base { #(#body)* #idx += 1; } });
+                return Some(("R-enum".into(), lp));
+            }
+            if kind != "iter" && kind != "iter_mut" {
                 return None;
             }
             let ipat = pat_inner(&pt.elems[0]);
@@ -709,17 +728,18 @@ pub fn selftest() -> i32 {
         ("{ xs.iter().for_each(|i| g(i)); }", &["R-foreach"], "xs . iter () . for_each", &[]),
         ("{ for (i, c) in self.chains.iter_mut().enumerate() { c.rng = s(i); } }", &["R-enum"], "for i in 0 .. self . chains . len () { let c = & mut self . chains [i] ; c . rng = s (i) ; }", &["R-enum"]),
         ("{ for (i, &p) in self.probs.iter().enumerate() { cum += p; } }", &["R-enum"], "let p = self . probs [i] ;", &["R-refpat", "R-enum"]),
+        ("{ for (i, s) in xs.into_iter().enumerate() { g(i, s); } }", &["R-enum"], "{ let mut i : usize = 0 ; for s in xs { g (i , s) ; i += 1 ; } }", &["R-enum"]),
         ("{ for (i, c) in foo().iter().enumerate() { g(c); } }", &["R-enum"], "let __vx_recv1 = foo () ;", &["R-enum"]),
         ("{ for (&f, &t) in from.iter().zip(to.iter()) { h(f, t); } }", &["R-zip"], "for __vx_k1 in 0 .. vx_min (from . len () , to . len ()) { let f = from [__vx_k1] ; let t = to [__vx_k1] ; h (f , t) ; }", &["R-refpat", "R-zip"]),
         ("{ let v: Vec<u8> = (0..n).map(|i| f(i)).collect(); }", &["R-mapcollect"], "let mut __vx_out1 = Vec :: new () ; for i in 0 .. n { __vx_out1 . push (f (i)) ; } __vx_out1", &["R-mapcollect"]),
         ("{ let v = xs.into_iter().map(|x| f(x)).collect::<Vec<u8>>(); }", &["R-mapcollect"], "let mut __vx_out1 : Vec < u8 > = Vec :: new () ; for x in xs { __vx_out1 . push (f (x)) ; }", &["R-mapcollect"]),
         ("{ let v = xs.iter().filter(|x| p(x)).collect(); }", &["R-mapcollect"], "filter", &[]),
-        ("{ let v = xs.into_iter().flatten().collect(); }", &["R-flatten"], "for __vx_row2 in xs { for __vx_x3 in __vx_row2 { __vx_out1 . push (__vx_x3) ; } }", &["R-flatten"]),
+        ("{ let v = xs.into_iter().flatten().collect(); }", &["R-flatten"], "for __vx_row1 in xs { for __vx_x1 in __vx_row1 { __vx_out1 . push (__vx_x1) ; } }", &["R-flatten"]),
         ("{ let s = ps.iter().cloned().fold(z(), |acc, x| acc + x); }", &["R-fold"], "let mut acc = z () ; for __vx_k1 in 0 .. ps . len () { let x = ps [__vx_k1] . clone () ; acc = acc + x ; } acc", &["R-fold"]),
         ("{ let a = 0.5; let b = 1000.0; let c = 0.; let d = 2; }", &["R-lit"], "let a = fl_lit (1 , 2) ; let b = fl_lit (1000 , 1) ; let c = fl_lit (0 , 1) ; let d = 2 ;", &["R-lit", "R-lit", "R-lit"]),
         ("{ let a = n as f64; let b = x as usize; }", &["R-cast"], "let a = to_fl (n) ; let b = x as usize ;", &["R-cast"]),
         ("{ let u: f64 = r.random::<f64>(); }", &["R-f64"], "let u : Fl = r . random :: < Fl > () ;", &["R-f64", "R-f64"]),
-        ("{ let r: Vec<A> = cs.par_iter_mut().map(|c| run(c)).collect(); }", &["R-par", "R-mapcollect"], "for __vx_k2 in 0 .. cs . len () { let c = & mut cs [__vx_k2] ; __vx_out1 . push (run (c)) ; }", &["R-par", "R-mapcollect"]),
+        ("{ let r: Vec<A> = cs.par_iter_mut().map(|c| run(c)).collect(); }", &["R-par", "R-mapcollect"], "for __vx_k1 in 0 .. cs . len () { let c = & mut cs [__vx_k1] ; __vx_out1 . push (run (c)) ; }", &["R-par", "R-mapcollect"]),
         ("{ out.row_mut(i - d).assign(&arr); }", &["R-fuse"], "nd_row_assign (& mut out , i - d , & arr) ;", &["R-fuse"]),
         ("{ let m: Vec<T> = (&mut self.rng).sample_iter(StandardNormal).take(dim).collect(); }", &["R-sampleiter"], "vx_sample_n (& mut self . rng , StandardNormal , dim)", &["R-sampleiter"]),
         ("{ let m = format!(\"x {}\", e); println!(\"{}\", m); m }", &["R-fmt"], "{ let m = fmt_opaque () ; m }", &["R-fmt"]),
